@@ -23,7 +23,8 @@ P = {
                  "C13_F4_pinned_refuted", "C13_F4_pinned_refuted_view", "C13_F6_pinned_refuted", "C13_F7_pinned_refuted",
                  "C13_F3b_refuted", "C13_F5_refuted", "C13_F5_refuted_handover", "C13_F8_refuted", "C13_F9_pinned_refuted", "C13_F11_pinned_refuted",
                  "C13_nonvacuous", "C13_nonvacuous_pinned", "C13_nonvacuous_redirect",
-                 "C13_deployed_decision_same_url", "C13_deployed_decision_same_url_repo", "C13_F10_pinned_refuted"],
+                 "C13_deployed_decision_same_url", "C13_deployed_decision_same_url_repo", "C13_F10_pinned_refuted",
+                 "C13_body_reads_stable", "C13_body_reads_agree"],
     "streams": [{
         "name": "entrypoints", "pkg": "./internal/zzverif/c13", "test": "TestVerifC13",
         "overlay": dict(ASSEMBLY_OVERLAY, **{"internal/zzverif/c13/c13_test.go": "c13/c13_test.go"}),
@@ -36,6 +37,11 @@ P = {
         "overlay": dict(ASSEMBLY_OVERLAY, **{"internal/zzverif/c13/c13_test.go": "c13/c13_test.go"}),
         "eval_module": "Run.Eval_C13", "check_term": "check_tp_repo",
         "n_quick": 300, "n_thorough": 6000, "findings": {}, "shard": 150,
+    }, {
+        "name": "interleaved", "pkg": "./internal/zzverif/c13", "test": "TestVerifC13Interleaved",
+        "overlay": dict(ASSEMBLY_OVERLAY, **{"internal/zzverif/c13/c13_test.go": "c13/c13_test.go"}),
+        "eval_module": "Run.Eval_C13", "check_term": "check_il",
+        "n_quick": 120, "n_thorough": 2000, "findings": {}, "shard": 200,
     }],
     "rule": "Stream entrypoints: per group of 40 cases one generated rule set of 4-7 rules (path expressions /rK/lit, /rK/:name, "
             "/rK/:a/x/:b, /rK/**, /rK/*rest, /rK/v1/:name; allow_encoded_slashes unset/off/on/no_decode; optional route conditions on "
@@ -59,6 +65,9 @@ P = {
             "seeded change C13-1 and of the audit's blind spots) first.  Stream deployed: one logical request (method, scheme, host, "
             "path of 1-3 pool segments, one of 31 queries) sent to a decision service directly and, described by X-Forwarded-Method/"
             "-Proto/-Host/-Uri from a trusted proxy, to a decision service with trusted_proxies; both echo method and URL parts.  "
+            "Stream interleaved: request 1 (body of one of 12 content-type/shape pairs) through each entry point with a rule whose "
+            "pipeline reads the body, waits for a contextualizer endpoint (the driver's hook, which meanwhile sends a second request "
+            "of the same shape with other values through decision, proxy or Envoy) and reads the body again; GOMAXPROCS(1).  "
             "Non-trivial = a rule matched and its pipeline reads the view in a condition or a template (stream 1) / the request has a "
             "query (stream 2); distinct by hash of (rule, request).",
     "anchors": ["internal/handler/requestcontext/request_context.go", "internal/handler/decision/request_context.go",
@@ -106,7 +115,9 @@ P = {
                   "key but Host; net/http's and grpcv3's cookie readers agree under a name whenever the parts concerning that name are "
                   "plain.  The model is tied to the code by sending ~1100 (quick) / 24000 (thorough) generated requests per run to the "
                   "three real assembled applications loaded with generated rule sets, plus 300 / 6000 requests to two decision services "
-                  "(direct / behind a trusted proxy), and comparing with the model inside Coq; the property predicate (the observations "
+                  "(direct / behind a trusted proxy) and 120 / 2000 interleaved request pairs (the body as the pipeline sees it before and after "
+                  "another request in flight read its body; theorem over all sequences of reads of requests in flight), and comparing "
+                  "with the model inside Coq; the property predicate (the observations "
                   "of the entry points are equal) is evaluated on the observations, never on the model.",
     "level_note": "Trusted: Coq kernel/vm_compute; the correspondence harness incl. the Envoy encoding of a request (lower-case header "
                   "names, repeated lines joined with ',', cookie lines with '; ', the peer as x-forwarded-for metadata; body and "
@@ -118,7 +129,8 @@ P = {
                   "the status number of a denial (C12), the property comparison at the exact status.  FIXED (fix: commits, revert of "
                   "each => VIOLATION): C13-F1 b2286d8, F2 7c3e9fc, F3 a5ef279, F4 ae6db4f, F6 06faa19, F7 19923cd.  OPEN with guards: "
                   "F5, F8, F3b (no repair), F9 (fixes/C13-F9.diff), F11 (fixes/C13-F11.diff; the driver detects both repairs by "
-                  "sentinel requests), F10 (decision service behind a trusted proxy re-encodes the query; no repair offered).  Not "
+                  "sentinel requests), F10 (decision service behind a trusted proxy re-encodes the query; no repair offered).  The interleaved stream runs on one P (GOMAXPROCS(1)) so that sync.Pool reuse is "
+                  "deterministic; truly parallel requests are not exercised.  Not "
                   "covered (see docs/notes/C13.md, After the audit): several Cookie lines, multi-hop client address lists, URL "
                   "fragments, www_authenticate and other error handlers than redirect, the default rule, overlapping rules and "
                   "backtracking, X-Forwarded-* next to pipeline headers and the upstream URL of the proxy (C15), regex/glob host "
